@@ -20,7 +20,8 @@ MIN_COUNTERS = dict(quick={'calls_checked': 3000, 'evaluation_points_checked': 1
                            'asserted:central_pairs': 500, 'asserted:real_part_exact': 300,
                            'asserted:reach': 3000, 'asserted:support': 1500},
                     thorough={'calls_checked': 140000})
-RULE = ('classes Derivative/Gradient/Jacobian/Hessdiag/Hessian x methods x n 1..6 x order 1..8 x dimension 1..5 x step '
+RULE = ('30 % of the objects reach (method, order) through their setters after having been called with another configuration. ' 
+        'classes Derivative/Gradient/Jacobian/Hessdiag/Hessian x methods x n 1..6 x order 1..8 x dimension 1..5 x step '
         'source (default, Min/MaxStepGenerator with random options, scalar step) x x of both signs and magnitudes; every '
         'argument received by the wrapped callable is recorded. distinct non-trivial = (class, method, difference '
         'function actually used, dimension, step source); every difference function that the quantified grid can select '
